@@ -157,6 +157,22 @@ pub fn run_sim<F, T>(seed: u64, f: impl FnOnce() -> F) -> T
 where
     F: Future<Output = T>,
 {
+    run_sim_opt(seed, true, f)
+}
+
+/// Same rig on the real clock (used only where the interesting interleavings need time to pass
+/// while tasks are runnable, which a paused clock never allows).
+pub fn run_sim_realtime<F, T>(seed: u64, f: impl FnOnce() -> F) -> T
+where
+    F: Future<Output = T>,
+{
+    run_sim_opt(seed, false, f)
+}
+
+fn run_sim_opt<F, T>(seed: u64, paused: bool, f: impl FnOnce() -> F) -> T
+where
+    F: Future<Output = T>,
+{
     install_panic_hook();
     TASK_NODE.with(|m| m.borrow_mut().clear());
     PANICS.with(|p| p.borrow_mut().clear());
@@ -172,7 +188,7 @@ where
     })));
     let rt = tokio::runtime::Builder::new_current_thread()
         .enable_time()
-        .start_paused(true)
+        .start_paused(paused)
         .rng_seed(tokio::runtime::RngSeed::from_bytes(&seed.to_le_bytes()))
         .on_task_spawn(|meta| {
             let cur = simnet::current_node();
